@@ -146,6 +146,16 @@ def directed_programs():
         ("shadow-aba-inst", (g("vp_sink", "K"), A.POP, g("vp_other", "K"), A.POP, A.MARK, A.BININT1(1), A.INST("vp_sink", "K"), A.STOP)),
         ("shadow-abab-calls", (g("vp_sink", "hit"), A.EMPTY_TUPLE, A.REDUCE, A.POP, g("vp_other", "hit"), A.EMPTY_TUPLE, A.REDUCE, A.POP,
                                g("vp_sink", "hit"), A.EMPTY_TUPLE, A.REDUCE, A.POP, g("vp_other", "hit"), A.EMPTY_TUPLE, A.REDUCE, A.STOP)),
+        # batch / append opcodes whose target is a global pushed directly (the `sys.path.extend([...])` shape): the VM
+        # performs the attribute call; a decompiler either models it or refuses - and whatever follows is still there
+        ("append-on-global-then-call", (g("vp_sink", "K"), A.BININT1(1), A.APPEND, A.POP, g("vp_sink", "hit"), A.MARK, A.SBU("after"),
+                                        A.TUPLE, A.REDUCE, A.STOP)),
+        ("appends-on-global-then-call", (g("vp_sink", "K"), A.MARK, A.BININT1(1), A.BININT1(2), A.APPENDS, A.POP, g("vp_sink", "hit"),
+                                         A.EMPTY_TUPLE, A.REDUCE, A.STOP)),
+        ("additems-on-global-then-call", (A.PROTO(4), g("vp_sink", "K"), A.MARK, A.BININT1(1), A.ADDITEMS, A.POP, g("vp_other", "hit"),
+                                          A.EMPTY_TUPLE, A.REDUCE, A.STOP)),
+        ("setitems-on-global-then-call", (g("vp_sink", "K"), A.MARK, A.SBU("k"), A.BININT1(1), A.SETITEMS, A.POP, g("vp_sink", "hit"),
+                                          A.EMPTY_TUPLE, A.REDUCE, A.STOP)),
         ("nonident-global", (A.SBU("not an identifier"), A.SBU("x y"), A.STACK_GLOBAL, A.STOP)),
         ("nonident-quote", (A.SBU("a'b"), A.SBU("c"), A.STACK_GLOBAL, A.EMPTY_TUPLE, A.REDUCE, A.STOP)),
         ("dotted-attr", (A.SBU("vp_sink"), A.SBU("K.method"), A.STACK_GLOBAL, A.STOP)),
